@@ -1,7 +1,8 @@
 """C17 — benchmark comparison ignores molecule order and SMILES spelling.
 
-E1: all reactions Rxn(A17, k) over a 13-molecule alphabet with anagram isomer pairs,
-aromatic/kekule pairs and ions; for each reaction all distinct permutations of the
+E1: all reactions Rxn(A17, 2) over a 13-molecule alphabet with anagram isomer pairs,
+aromatic/kekule pairs and ions (thorough: also every reaction with a 3-molecule side against
+every side of <= 2 molecules, and every 3-molecule side against itself); for each reaction all distinct permutations of the
 molecules of each side and the finite spelling family universe.spell (rooted at every atom,
 kekule, explicit-H, three atom-map numberings - normalize_smiles is documented by the pinned
 tests to remove maps).  Oracle:
@@ -294,12 +295,18 @@ def run(tier, seed):
     parts["molecule-spellings"] = r_mol
     rx2 = universe.Rxn(A17, 2)
     items = [(x, "cross" if tier == "thorough" else "perm+rev") for x in rx2]
-    n3 = 0
+    n3 = n3b = 0
     if tier == "thorough":
-        in2 = set(rx2)
-        rx3 = [x for x in universe.Rxn(A17, 3) if x not in in2]
+        # sides of three molecules: against every side of <= 2 (both directions), and every
+        # 3-molecule side against itself with the full cross of permutations and profiles
+        small = list(universe.multisets(A17, 2))
+        big = [m for m in universe.multisets(A17, 3) if len(m) == 3]
+        rx3 = [".".join(b) + ">>" + ".".join(a) for b in big for a in small]
+        rx3 += [".".join(a) + ">>" + ".".join(b) for b in big for a in small]
         n3 = len(rx3)
         items += [(x, "lite") for x in rx3]
+        items += [(".".join(b) + ">>" + ".".join(b), "cross") for b in big]
+        n3b = len(big)
     parts["reactions"] = pmap("checks.c17:reaction_item", items, chunk=40, seed=seed)
     n_sym = len(sym_reactions())
     parts["symmetry"] = pmap("checks.c17:sym_item", list(range(n_sym)), chunk=1, seed=seed)
@@ -347,10 +354,11 @@ def run(tier, seed):
                     len(rx2), len(A17),
                     "x" if tier == "thorough" else "in canonical spelling, and with both "
                     "sides reversed",
-                    "; thorough adds the {} reactions of Rxn(A17, 3) with a side of 3: every "
-                    "permutation in canonical spelling and every profile in reversed order "
-                    "(all three methods on the first/last permutation, pathway on the "
-                    "rest)".format(n3) if n3 else "",
+                    "; thorough adds the {} reactions with one side of 3 molecules and the "
+                    "other of <= 2: every permutation in canonical spelling and every profile "
+                    "in reversed order (all three methods on the first/last permutation and "
+                    "last profile, pathway on the rest), and the {} reactions S>>S for every "
+                    "3-molecule side S with the full cross".format(n3, n3b) if n3 else "",
                     n_sym, n_sym, SYM_LEFT, SYM_RIGHT),
         "samples": ["CCCO.CCOC>>CC=O  vs  CCOC.CCCO>>CC=O",
                     "c1ccccc1>>c1ccncc1  vs  C1=CC=CC=C1>>C1=CC=NC=C1",
